@@ -94,8 +94,13 @@ def run_for(pid, spec, tier, oc):
                                       message='Kani reported failed checks', site='; '.join(r['failures'])[:200], site_tags=['code'],
                                       clause=r['bound'], clause_tags=[], tree_changed=None))
         elif not r['ok']:
-            oc.undecided.append('kani harness %s: %s' % (r['harness'], 'timeout' if r['timeout'] else
-                                                        ('unsupported construct' if r['unsupported'] else 'no verdict: ' + r['tail'][-200:])))
+            why = 'timeout' if r['timeout'] else ('unsupported construct' if r['unsupported'] else 'no verdict: ' + r['tail'][-200:])
+            if r['bounded']:
+                # a bounded harness is a labelled cross-check next to the Verus proof, never the deciding step: when it is
+                # inconclusive the evidence says so, the verdict is unaffected
+                oc.notes.append('bounded Kani cross-check %s inconclusive (%s) after %.0f s' % (r['harness'], why, r['wall_s']))
+            else:
+                oc.undecided.append('kani harness %s: %s' % (r['harness'], why))
         elif not r['bounded']:
             oc.obligations += r['checks']
             oc.discharged += r['checks']
